@@ -23,6 +23,7 @@ ID = "C19"
 LEVEL = "fault_enumeration"
 TIERS = {"quick": {"runs": 400, "wall": 120}, "thorough": {"runs": 40000, "wall": 1500}}
 TRACE_KEYS = ("faults",)
+RUN_TIMEOUT = 240     # one run = fault-free + every single fault (+ pairs) on one world
 RULE = ("worlds = seeded random file histories v0..vn (n<=6, <=12 lines each) published as "
         "ed-style patches + pdiff Index (SHA1 / SHA256 / both, permuted fields, optional "
         "short history window) + gzip full file, local copy absent / at any vi / current / "
@@ -44,7 +45,9 @@ ASSUMPTIONS = [
     "the full file (.gz) is not hash-checked by update_file, so payload alteration of the "
     "full file is outside the property's fault list and is not injected (only undecodable "
     "/ missing / aborted full downloads are)",
-    "single faults are enumerated exhaustively per sampled world; pairs are sampled",
+    "single faults are enumerated exhaustively per sampled world (for the rare bulk worlds "
+    "with more than 24 writes the write faults are placed on the first three, the last three "
+    "and six evenly spread writes); pairs are sampled",
     "no fsync / power-loss durability claim is checked (the property makes none)",
 ]
 PROBES = ["recovery_update_after_fault", "stale_new_file_present", "bulk_world_over_8k",
@@ -273,6 +276,14 @@ def build_repo(world, faults):
                 fired_if_fetched[url] = f
         elif site == "index":
             index_ops.append(f)
+    # two payload faults on one patch may cancel each other: then nothing was altered
+    for j in range(n):
+        url = REMOTE + ".diff/" + names[j] + ".gz"
+        f = fired_if_fetched.get(url)
+        if f is not None and f["kind"] not in ("gz_truncate", "gz_bitflip") and \
+                served[j] == patches[j]:
+            del fired_if_fetched[url]
+            patch_hash_src[j] = patches[j]
     # index text
     lo = n - world["window"]
     blocks = {}
@@ -298,12 +309,16 @@ def build_repo(world, faults):
                 blocks.pop(fam + "-Current", None)
         elif k == "arity":
             for fam in world["families"]:
-                blocks[fam + "-Current"] = blocks[fam + "-Current"] + " extra"
+                if fam + "-Current" in blocks:
+                    blocks[fam + "-Current"] = blocks[fam + "-Current"] + " extra"
         elif k == "arity_short":
             for fam in world["families"]:
-                blocks[fam + "-Current"] = " " + blocks[fam + "-Current"].split()[0]
+                if fam + "-Current" in blocks:
+                    blocks[fam + "-Current"] = " " + blocks[fam + "-Current"].split()[0]
         elif k == "current_wrong":
             for fam in world["families"]:
+                if fam + "-Current" not in blocks:
+                    continue
                 t = blocks[fam + "-Current"].split()
                 t[0] = _h(fam, b"something else entirely\n")
                 blocks[fam + "-Current"] = " " + " ".join(t)
@@ -635,7 +650,13 @@ def enumerate_faults(world, base):
         fl.append({"site": "full", "kind": k, "pos": 11, "bit": 3})
     fl.append({"site": "fs", "kind": "open_read", "at": 0})
     fl.append({"site": "fs", "kind": "open_write", "at": 0})
-    for i in range(base["writes"]):
+    nw = base["writes"]
+    if nw <= 24:
+        widx = list(range(nw))
+    else:
+        # bulk worlds: first / last writes and an even spread (every write is the same code)
+        widx = sorted(set([0, 1, 2, nw - 3, nw - 2, nw - 1] + [nw * k // 7 for k in range(1, 7)]))
+    for i in widx:
         for mode in ("enospc", "enospc_partial", "eio"):
             fl.append({"site": "fs", "kind": "write", "at": i, "mode": mode})
     fl.append({"site": "fs", "kind": "flush_close", "at": 0})
